@@ -93,8 +93,12 @@ def gen_cases(tier, seed):
     for i in range(n // 6):
         r = vlib.case_rng(seed, PID, ("other", i))
         tok = gdiff.Tok()
-        kind = r.choice(["diffu", "cc"])
-        secs = [gdiff.gen_section(r, tok, kind=kind) for _ in range(r.randint(1, 3))]
+        kind = r.choice(["diffu", "cc", "sub"])
+        if kind == "sub":
+            # submodule pointer changes (short format) among ordinary files
+            secs = [gdiff.gen_section(r, tok, kind=r.choice(["sub", "sub", "subadd", "subdel", "subnear", "mod"])) for _ in range(r.randint(1, 4))]
+        else:
+            secs = [gdiff.gen_section(r, tok, kind=kind) for _ in range(r.randint(1, 3))]
         lines = gdiff.diff_lines({"pre": gdiff.gen_log_wrapper(r) if (kind == "cc" and r.random() < 0.5) else [], "sections": secs})
         for opts, keep in [(r.choice(KEEP), True), (r.choice(OVERRIDE), False)]:
             cases.append({"lines": lines, "opts": opts, "keep": keep, "coloured": False, "kinds": [kind], "no_model": True})
